@@ -2,6 +2,7 @@
 mod c13;
 mod c14;
 mod c40;
+mod c42;
 
 fn main() {
     let a: Vec<String> = std::env::args().collect();
@@ -9,6 +10,7 @@ fn main() {
     match cmd {
         "c14" => c14::main(),
         "c40" => c40::main(),
+        "c42" => c42::main(),
         "c13" => c13::main(),
         _ => {
             eprintln!("usage: vadt <c14|c13|c40|c42> [options]");
